@@ -35,6 +35,22 @@ CHECKS.update({
          "taken/not-taken, every repeat iteration and every prefix form."),
    note="Trusted: TLC, Z80.tla's cycle lists (transcribed from the documented machine cycles / contention tables). Sampling over operands."),
 })
+CHECKS.update({
+ "C04": dict(
+   category="model_checking", design_ref="4 (C04/C05)", technique="TLC trace validation of machine-level single steps against Z80.tla cycle lists folded through the TLA+ contention model",
+   text=("Ula.tla states the contention model with the property's numbers (T0, T/line, 6,5,4,3,2,1,0,0 pattern, 128-T window, 192 lines, four I/O "
+         "patterns, contended banks); MC_Ula proves by exhaustive constant-level evaluation that the implementation-shaped delay/frame/INT formulas "
+         "equal it for every T of both frames. The full emulator is single-stepped from chosen in-frame times with code/stack/operands/I/port in every "
+         "window, on 48K and on 128K with every bank at 0xC000; UlaTrace requires the clock after each call to equal RunOps(Emulate(pre).ops)."),
+   note="Trusted: TLC, Z80.tla cycle lists (validated separately by C03), the clock accessor hook. Sampling over (instruction, T, placement); exhaustive only for the per-T delay function."),
+ "C05": dict(
+   category="model_checking", design_ref="4 (C04/C05)", technique="TLC clock model on real constants + TLC trace validation of frame-crossing steps and free-running programs",
+   text=("MC_Ula explores the wait_internal/new_frame clock with arbitrary instruction lengths on the real frame lengths (conservation of T-states, "
+         "exactly one INT service per frame for a polling program). On the real emulator: calls started in the first 40 / last 30 T-states (INT accepted "
+         "exactly while T < 32, overrun carried across the wrap) and busy/HALT loops over up to hundreds of frames under random FrameCount slicings, "
+         "checked for executed T-states = frames x frame length + offset and interrupts = frames."),
+   note="Trusted: TLC, the clock accessor hook, Z80.tla. Programs are three fixed loops; start times and slicings are random."),
+})
 NOT_YET = {}
 
 HOOK_COMMITS = ["71990aa"]
